@@ -295,6 +295,9 @@ def handleU (ss : Sess) (args : List String) : Sess × String :=
     | some k => let s' := UFile.setDlcs s k; ({ ss with uf := s' }, "u ok " ++ ufObs s')
     | none => (ss, "bad-request")
   | ["abort"] => let s' := UFile.doAbort s; ({ ss with uf := s' }, "u ok " ++ ufObs s')
+  | ["held"] =>
+    (ss, "u held n=" ++ toString s.data.length ++ " c=" ++
+      ",".intercalate (s.data.map fun c => toString c.pos ++ ":" ++ toString c.size ++ ":" ++ toString c.data.length))
   | _ => (ss, "bad-request")
 
 def qObs (s : Queue.State) : String :=
